@@ -320,7 +320,7 @@ func (c12) Exec(sci interface{}, env *Env) (res *Violation) {
 					res = viol("run-returns-at-halt", "Run was still executing %d accesses after the Step in which the bus shows an executed HALT (memory %s/%d, io %s/%d, IM=%d)", 64, sc.MemKind, sc.MemLen, sc.IOKind, sc.IOLen, sc.IM)
 					return
 				}
-				env.Class("run/" + s.why)
+				env.Class("run/%s", s.why)
 				res = nil
 				return
 			}
